@@ -105,6 +105,7 @@ class Env:
         self.objs = {}       # node id -> manager object
         self.fns = {}        # (stack id, op index) -> registered function / method self
         self.keep = []
+        self.holders = {}
         self.exit_root = False
 
     def trap(self):
@@ -147,7 +148,11 @@ class Env:
             self.fns[key] = exit_fn
             (es.push if name == "push_fn" else es.push_async_exit)(exit_fn)
         elif name in ("push_method", "push_async_exit_method"):
-            holder = PM(-1) if name == "push_method" else APM(-1)
+            # one owner object may have several of its methods registered (or the same one twice): every registration
+            # is a callback of its own.  Every other registration of a method re-uses the owner of the previous one.
+            prev = self.holders.get(name)
+            holder = prev if (prev is not None and idx % 2 == 1) else (PM(-1) if name == "push_method" else APM(-1))
+            self.holders[name] = holder
             self.fns[key] = holder
             if name == "push_method":
                 es.push(holder.method)
